@@ -112,9 +112,11 @@ def find_spans(t, p, u):
     return s.astype(int)
 
 
-def basis_derivs(t, p, u, nder=0):
+def basis_derivs(t, p, u, nder=0, absolute=False):
     """Float Cox-de Boor.  Returns (first, D) with first[m] = first active index at u[m] and
-    D[k, m, j] = k-th derivative of N_{first[m]+j, p}(u[m])."""
+    D[k, m, j] = k-th derivative of N_{first[m]+j, p}(u[m]).
+    absolute=True: the sum of the absolute values of the terms each derivative is composed of (the differences of the
+    derivative recursion become sums): the condition-aware rounding scale S >= |D| (cf. all_derivs_generic)."""
     t = np.asarray(t, dtype=float)
     u = np.atleast_1d(np.asarray(u, dtype=float))
     s = find_spans(t, p, u)
@@ -143,7 +145,10 @@ def basis_derivs(t, p, u, nder=0):
             else:
                 if P is not None:
                     row[:, 1:] += q / dl[:, 1:] * P
-                    row[:, :q] -= q / dr[:, :q] * P
+                    if absolute:
+                        row[:, :q] += q / dr[:, :q] * P
+                    else:
+                        row[:, :q] -= q / dr[:, :q] * P
             cur.append(row)
         prev = cur
     D = np.zeros((nder + 1, m, p + 1))
@@ -153,12 +158,12 @@ def basis_derivs(t, p, u, nder=0):
     return s - p, D
 
 
-def colloc(t, p, u, k=0):
-    """Dense collocation matrix C[m, i] = N_i^{(k)}(u[m])."""
+def colloc(t, p, u, k=0, absolute=False):
+    """Dense collocation matrix C[m, i] = N_i^{(k)}(u[m]) (absolute=True: the rounding scales, see basis_derivs)."""
     t = np.asarray(t, dtype=float)
     u = np.atleast_1d(np.asarray(u, dtype=float))
     n = len(t) - p - 1
-    first, D = basis_derivs(t, p, u, k)
+    first, D = basis_derivs(t, p, u, k, absolute=absolute)
     C = np.zeros((len(u), n))
     rows = np.arange(len(u))[:, None]
     cols = first[:, None] + np.arange(p + 1)[None, :]
